@@ -1,4 +1,5 @@
 import HabuVerif.Proofs.SignSound
+import HabuVerif.Proofs.SignSound2
 import HabuVerif.Gen.C15Sign_2021
 import HabuVerif.Gen.C15Sign_2022
 import HabuVerif.Gen.C15Sign_2023
@@ -16,8 +17,11 @@ not-negative numbers assumed not negative).  A line of the reviewed baseline
 parenthesis, a wrong operand — is a broken obligation.
 
 Soundness (`Proofs/SignSound.lean`): `absBody_sound` (mutual induction over the whole DSL, loops by a
-checked invariant), `closedWith_line`, and `nnLine_sound…` relating the analysis to `Dsl.run` of
-`evalLine` against arbitrary stores.
+checked invariant), `closedWith_line`, and `nnLine_sound_partial2` (`Proofs/SignSound2.lean`): for a line
+that passes the analysis, against ALL stores whose inputs are not negative (a) and whose stored values under
+keys of `S` are not-negative numbers (b), a value returned by `Dsl.run` of `evalLine` is a not-negative
+number — relative to `RestFacts`, a store-free bundle of facts about the Python operators on values that are
+not all discharged yet (listed in that file).
 -/
 set_option autoImplicit false
 
@@ -58,3 +62,5 @@ end HabuVerif.C15Sign
 #print axioms HabuVerif.Sign.absBody_sound
 #print axioms HabuVerif.Sign.nnLineWith_sound_partial
 #print axioms HabuVerif.Sign.nnLine_sound_partial
+#print axioms HabuVerif.Sign.nnLine_sound_partial2
+#print axioms HabuVerif.Sign.opFacts_of
